@@ -68,6 +68,9 @@ def run_harness(scn_file, driver, runs, seed, out_file, pb=2, script=None, max_s
             raise ToolError('harness failed (%d): %s' % (p.returncode, p.stdout[-2000:]))
         break
     lines = open(out_file).read().splitlines() if os.path.exists(out_file) else []
+    # a harness that was stopped at the time limit leaves an unfinished run behind: keep the complete runs only
+    last_end = max([i for i, l in enumerate(lines) if l.startswith('{"clean"')], default=-1)
+    lines = lines[:last_end + 1]
     for f in (state,):
         if os.path.exists(f):
             os.remove(f)
